@@ -18,12 +18,18 @@ partial def vText (s : Store) : V → String
   | .mat r c els => matText "f64" r c (els.map numText)
   | .blob t => t
   | .tuple cells => "tup:(" ++ ";".intercalate (cells.map (fun c => match s.read c with | some v => vText s v | none => "?")) ++ ")"
+  | .record fs => "record:[" ++ ";".intercalate (fs.map (fun p => p.1 ++ "<f64>=f64:" ++ numText p.2)) ++ "]"
+  | .table rows cols => "table:" ++ toString rows ++ "x" ++ toString cols.length ++ ":[" ++
+      ";".intercalate (cols.map (fun p => p.1 ++ "<f64>=" ++ ",".intercalate (p.2.map (fun x => "f64:" ++ numText x)))) ++ "]"
 
 partial def rvText : RV → String
   | .num v => "f64:" ++ numText v
   | .mat r c els => matText "f64" r c (els.map numText)
   | .blob t => t
   | .tuple els => "tup:(" ++ ";".intercalate (els.map rvText) ++ ")"
+  | .record fs => "record:[" ++ ";".intercalate (fs.map (fun p => p.1 ++ "<f64>=f64:" ++ numText p.2)) ++ "]"
+  | .table rows cols => "table:" ++ toString rows ++ "x" ++ toString cols.length ++ ":[" ++
+      ";".intercalate (cols.map (fun p => p.1 ++ "<f64>=" ++ ",".intercalate (p.2.map (fun x => "f64:" ++ numText x)))) ++ "]"
 
 def sortStrings (l : List String) : List String := (l.toArray.qsort (· < ·)).toList
 
@@ -46,6 +52,14 @@ def parseExpr (t : String) : Option Expr :=
   | "t" => (parseInts rest).map .tupleLit
   | "v" => some (.var rest)
   | "c" => some (.copy rest)
+  | "r" => ((rest.splitOn ",").mapM (fun (f : String) => match f.splitOn "=" with | [k, v] => (parseInt v).map (fun x => (k, x)) | _ => none)).map (fun fs => .lit (.record fs))
+  | "T" =>
+    (match rest.splitOn "/" with
+     | rows :: cols =>
+       (match rows.toNat?, cols.mapM (fun (c : String) => match c.splitOn "=" with | [k, v] => (parseInts v).map (fun xs => (k, xs)) | _ => none) with
+        | some r, some cs => some (.lit (.table r cs))
+        | _, _ => none)
+     | [] => none)
   | "m" =>
     match rest.splitOn "/" with
     | [shape, body] =>
@@ -61,7 +75,9 @@ def parseStmt (t : String) : Option Stmt :=
   | ["D", m, n, e] => (parseExpr e).map (fun e => .define (m == "1") n e)
   | ["A", n, e] => (parseExpr e).map (fun e => .assign n e)
   | ["I", n, ix, v] => (match parseNats ix, parseInt v with | some ix, some v => some (.setIdx n ix v) | _, _ => none)
-  | ["P", n, e] => (parseExpr e).map (fun e => .addAssign n e)
+  | ["P", n, e] => (parseExpr e).map (fun e => .addAssign .add n e)
+  | ["Q", o, n, e] => (parseExpr e).map (fun e => .addAssign (if o == "s" then .sub else .mul) n e)
+  | ["F", n, f, e] => (parseExpr e).map (fun e => .setField n f e)
   | ["T", ns, tn] => some (.destructure (ns.splitOn ",") tn)
   | _ => none
 
@@ -90,7 +106,7 @@ def runC05 (fields : List String) (obs : String) : String × String × String :=
             else if destr' then "C05-D2" else if alias' then "C05-D1"
             else (match st with
               | .setIdx _ ix _ => if ix.length > 1 then "C05-D3" else "-"
-              | .addAssign _ _ => "C05-D4"
+              | .addAssign _ _ _ => "C05-D4"
               | _ => "-")
           go rest r.1 q.1 (os.drop 1) (mt :: accM) (stx :: accS) alias' destr' region' (bad || stepBad)
       let (ms, ss, region, bad) := go stmts Store.empty ⟨[]⟩ obsSteps [] [] false false "-" false
